@@ -22,3 +22,79 @@ pub fn std_spec_min_u64() {
     kani::assert(core::cmp::min(a, b) == if a <= b { a } else { b }, "OBS std_spec.min: min(a,b) = if a <= b { a } else { b }");
     kani::cover!(a > b, "std_spec.min reachable");
 }
+
+/// `assume_specification[W::to_be / W::to_le]` + `axiom_be / axiom_le` of
+/// verus/units/{writer_unary,reader_unary}.rs, and the link between the Verus
+/// view (`words_bits`: bit i of the stream, BE = bit BITS-1-i of from_be(w),
+/// LE = bit i of from_le(w)) and the canonical byte image (`layout::image_bit`,
+/// defined on the memory bytes of the delivered word).
+macro_rules! byte_order {
+    ($name:ident, $w:ty) => {
+        #[kani::proof]
+        pub fn $name() {
+            let x: $w = kani::any();
+            kani::assert(<$w>::from_be(x.to_be()) == x, "OBS std_spec.byte_order: from_be(to_be(x)) = x");
+            kani::assert(<$w>::from_le(x.to_le()) == x, "OBS std_spec.byte_order: from_le(to_le(x)) = x");
+            kani::assert((0 as $w).to_be() == 0 && (0 as $w).to_le() == 0, "OBS std_spec.byte_order: to_be(0) = to_le(0) = 0");
+            let i: usize = kani::any();
+            kani::assume(i < <$w>::BITS as usize);
+            kani::assert(
+                crate::layout::image_bit(false, x.to_be(), i) == ((x >> (<$w>::BITS as usize - 1 - i)) & 1 != 0),
+                "OBS std_spec.byte_order: stream bit i of a word delivered by a BE writer is bit BITS-1-i of the value",
+            );
+            kani::assert(
+                crate::layout::image_bit(true, x.to_le(), i) == ((x >> i) & 1 != 0),
+                "OBS std_spec.byte_order: stream bit i of a word delivered by an LE writer is bit i of the value",
+            );
+            // reader side: the value a BE (LE) reader works with is `raw.to_be()` (`raw.to_le()`)
+            kani::assert(
+                crate::layout::image_bit(false, x, i) == ((x.to_be() >> (<$w>::BITS as usize - 1 - i)) & 1 != 0),
+                "OBS std_spec.byte_order: stream bit i of a word obtained by a BE reader is bit BITS-1-i of raw.to_be()",
+            );
+            kani::assert(
+                crate::layout::image_bit(true, x, i) == ((x.to_le() >> i) & 1 != 0),
+                "OBS std_spec.byte_order: stream bit i of a word obtained by an LE reader is bit i of raw.to_le()",
+            );
+            kani::cover!(i == 9 % (<$w>::BITS as usize), "std_spec.byte_order reachable");
+        }
+    };
+}
+byte_order!(std_spec_byte_order_u8, u8);
+byte_order!(std_spec_byte_order_u16, u16);
+byte_order!(std_spec_byte_order_u32, u32);
+byte_order!(std_spec_byte_order_u64, u64);
+byte_order!(std_spec_byte_order_u128, u128);
+
+/// count-zeros specifications used by verus/units/reader_unary.rs (vstd's axioms for
+/// u8..u64, verus/units/lz128.inc for u128), in exactly the form the unit uses
+macro_rules! count_zeros {
+    ($name:ident, $w:ty) => {
+        #[kani::proof]
+        pub fn $name() {
+            let x: $w = kani::any();
+            const B: u32 = <$w>::BITS;
+            let lz = x.leading_zeros();
+            let tz = x.trailing_zeros();
+            kani::assert(lz <= B && tz <= B, "OBS std_spec.count_zeros: 0 <= lz, tz <= BITS");
+            kani::assert((x == 0) == (lz == B) && (x == 0) == (tz == B), "OBS std_spec.count_zeros: x = 0 <=> lz = BITS <=> tz = BITS");
+            if x != 0 {
+                kani::assert((x >> (B - 1 - lz)) & 1 != 0, "OBS std_spec.count_zeros: bit BITS-1-lz is set");
+                kani::assert((x >> tz) & 1 != 0, "OBS std_spec.count_zeros: bit tz is set");
+            }
+            let j: u32 = kani::any();
+            kani::assume(j < B);
+            if j >= B - lz {
+                kani::assert((x >> j) & 1 == 0, "OBS std_spec.count_zeros: the bits above the leading one are zero");
+            }
+            if j < tz {
+                kani::assert((x >> j) & 1 == 0, "OBS std_spec.count_zeros: the bits below the trailing one are zero");
+            }
+            kani::cover!(x != 0 && lz > 3 && tz > 3, "std_spec.count_zeros reachable");
+        }
+    };
+}
+count_zeros!(std_spec_count_zeros_u8, u8);
+count_zeros!(std_spec_count_zeros_u16, u16);
+count_zeros!(std_spec_count_zeros_u32, u32);
+count_zeros!(std_spec_count_zeros_u64, u64);
+count_zeros!(std_spec_count_zeros_u128, u128);
